@@ -45,8 +45,11 @@ Part I  dtypes: int / numpy integer / numpy float scalars for positions, sizes,
         rotations, angles, points, counts against the float-parameter object; and the
         scale family r in {1e-6, 1e6} runs through A-D and C.
 """
+import contextlib
 import itertools
 import math
+import os
+import traceback
 
 import numpy as np
 
@@ -90,6 +93,57 @@ MIN_DIST = [0.0, 0.3, 0.7]
 SHAPE_KINDS = ["Hexagon", "Rectangle1x1", "Rectangle4x1", "Circle", "Cell", "Cell3Sec", "CellSquare",
                "CellWrap(Cell)", "CellWrap(Cell3Sec)", "CellWrap(CellSquare)"]
 WRAP_OFFSET = 2.5 - 1.5j   # (x radius) where the CellWrap is put relative to the wrapped cell
+
+
+MISSING = object()
+
+
+def _private(obj, *names, default=MISSING):
+    """an ORACLE INPUT that has no public accessor: first of the candidate attribute names that exists
+    (default / MISSING if none does -- the caller then skips THAT relation and counts `oracle_input_unavailable`)"""
+    for nm in names:
+        try:
+            return getattr(obj, nm)
+        except AttributeError:
+            continue
+    return default
+
+
+def unavailable(chk, what):
+    chk.count("oracle_input_unavailable")
+    chk.outcome("oracle_input_unavailable", what)
+
+
+@contextlib.contextmanager
+def guard(chk, sig, case):
+    """chk.guard, except that (i) an exception whose innermost frame is in /verif -- the check's own code -- is the
+    check's fault (Broken, exit 2), never a verdict about the property; (ii) the Horizon signal of a scripted
+    stream (a placement loop that does not terminate) is a violation with its own signature.  Exceptions raised
+    inside pyphysim by VALID calls stay violations (reported by chk.guard)."""
+    with chk.guard(sig, case):
+        try:
+            yield
+        except (KeyboardInterrupt, SystemExit, Broken):
+            raise
+        except Horizon as e:
+            chk.fail(tuple(sig) + ("placement_does_not_terminate",), case, observed=str(e),
+                     expected="the rejection loop accepts a candidate of the default / seeded stream")
+        except BaseException as e:  # noqa
+            tb = traceback.extract_tb(e.__traceback__)
+            if tb and os.path.abspath(tb[-1].filename).startswith(common.VERIF_DIR + os.sep):
+                raise Broken("exception in the check's own code (%s:%d %s): %s: %s; case %r" % (
+                    os.path.basename(tb[-1].filename), tb[-1].lineno, tb[-1].name, type(e).__name__, e,
+                    {k: case[k] for k in list(case)[:6]} if isinstance(case, dict) else case)) from e
+            raise
+
+
+def scribble(arr, delta):
+    """the caller overwrites what it was handed, if that is possible at all (a read-only array or a tuple cannot
+    be corrupted: nothing to test) -> True if something was written"""
+    if not isinstance(arr, np.ndarray) or not arr.flags.writeable:
+        return False
+    arr += delta
+    return True
 
 
 def rot_c(z, deg):
@@ -265,9 +319,15 @@ def build_shape(kind, pos, r, rot):
     if kind == "CellSquare":
         return cell.CellSquare(pos, r * math.sqrt(2), cell_id=1, rotation=rot)
     if kind.startswith("CellWrap("):
-        inner = build_shape(kind[9:-1], pos, r, rot)
-        return cell.CellWrap(pos + WRAP_OFFSET * r, inner)
+        return build_wrap(kind, pos, r, rot)[0]
     raise KeyError(kind)
+
+
+def build_wrap(kind, pos, r, rot):
+    """(the CellWrap, the cell it wraps)"""
+    from pyphysim.cell import cell
+    inner = build_shape(kind[9:-1], pos, r, rot)
+    return cell.CellWrap(pos + WRAP_OFFSET * r, inner), inner
 
 
 def shape_centre(kind, pos, r):
@@ -357,7 +417,7 @@ def contains_sig(obj, kind, rot, lib):
 
 def run_contains(chk, kind, pos, r, rot, nlat, point=None):
     case = {"part": "contains", "kind": kind, "pos": pos, "radius": r, "rotation": rot}
-    with chk.guard(("contains", family(kind)), case):
+    with guard(chk, ("contains", family(kind)), case):
         obj = build_shape(kind, pos, r, rot)
         centre = shape_centre(kind, pos, r)
         v = check_vertices(chk, kind, pos, r, rot, obj, case)
@@ -431,7 +491,7 @@ def border_sig(kind, what):
 
 def run_border(chk, kind, pos, r, rot, angles=None, ratios=None):
     case = {"part": "border", "kind": kind, "pos": pos, "radius": r, "rotation": rot}
-    with chk.guard(("border_point", family(kind)), case):
+    with guard(chk, ("border_point", family(kind)), case):
         obj = build_shape(kind, pos, r, rot)
         centre = shape_centre(kind, pos, r)
         vl = [complex(z) for z in np.array(obj.vertices, dtype=complex)]
@@ -476,14 +536,14 @@ def run_border_user(chk, kind, pos, r, rot):
     """add_border_user places Nodes at get_border_point(angle, ratio) (ratio 1.0 -> 1-1e-15)"""
     from pyphysim.cell import cell as cellmod
     case = {"part": "border_user", "kind": kind, "pos": pos, "radius": r, "rotation": rot}
-    with chk.guard(("add_border_user", family(kind)), case):
+    with guard(chk, ("add_border_user", family(kind)), case):
         obj = build_shape(kind, pos, r, rot)
         angles = [0.0, 33.3, 90.0, 181.0, -77.7]
         ratios = [1.0, 0.999, 0.5, 0.25, 0.0]
         obj.add_border_user(angles, ratios)
         obj.add_border_user(45.0, 0.9)
         obj.add_border_user(-135.0)
-        users = obj._users
+        users = list(obj.users)
         chk.count("eval_border_users", len(users))
         want = [(a, q) for a, q in zip(angles, ratios)] + [(45.0, 0.9), (-135.0, 1.0)]
         if len(users) != len(want):
@@ -620,7 +680,7 @@ def make_random_run(chk, cfg, nusers, region, record=None, fails=None):
         """returns True when the execution ran into the horizon (livelock)"""
         case = dict(case0, choices=ctx.choices)      # live list: an exception report carries the prefix run so far
         result = [False]
-        with chk.guard(("random_user", kind), case):
+        with guard(chk, ("random_user", kind), case):
             result[0] = run_guarded(ctx, case)
         return result[0]
 
@@ -762,7 +822,7 @@ def run_random(chk, cfg, bound, nusers, split_depth=0, shard_i=0, shard_n=1):
     owner = split_depth == 0 or shard_i == 0
     # non-vacuity of the default stream, by the oracle: one of the NDIR default points is acceptable
     region = None
-    with chk.guard(("random_user", kind), case0):
+    with guard(chk, ("random_user", kind), case0):
         region = placement_region(kind, sector, pos, r, rot)
         _, ok = default_cycle(region, md)
         if not ok:
@@ -912,7 +972,7 @@ def run_cluster(chk, n, ctype, r, pos, rot):
     from pyphysim.cell import cell
     case = {"part": "cluster", "num_cells": n, "cell_type": ctype, "cell_radius": r, "pos": pos, "rotation": rot}
     sig0 = ("cluster", ctype)
-    with chk.guard(sig0, case):
+    with guard(chk, sig0, case):
         cl = cell.Cluster(cell_radius=r, num_cells=n, pos=pos, cell_type=ctype, rotation=rot)
         got = check_cluster_geometry(chk, cl, n, ctype, r, pos, rot, case, sig0)
         if got is None:
@@ -929,7 +989,16 @@ def run_cluster(chk, n, ctype, r, pos, rot):
         # wrap-around: 19 cells + 42 wrapped cells = rings 0..4 of the hexagonal lattice
         if n == 19 and ctype in ("simple", "3sec"):
             cl.create_wrap_around_cells()
-            W = list(cl._wrapped_cells.values())
+            # the wrapped cells have no public accessor: oracle input read tolerantly
+            W = _private(cl, "_wrapped_cells", "wrapped_cells")
+            if W is MISSING:
+                unavailable(chk, "Cluster: collection of wrapped cells")
+                W = None
+            else:
+                W = list(W.values()) if isinstance(W, dict) else list(W)
+        else:
+            W = None
+        if W is not None:
             allp = np.concatenate([P, np.array([complex(w.pos) for w in W])])
             a1 = step * np.exp(1j * math.radians(30.0))
             a2 = step * 1j
@@ -939,7 +1008,11 @@ def run_cluster(chk, n, ctype, r, pos, rot):
             if len(allp) != 61 or not same_point_set(allp, lat, TOL * r * 10):
                 chk.fail(sig0 + ("wrap_around_not_lattice_rings",), case, observed=allp, expected=np.array(lat))
             for w in W:
-                src = w._wrapped_cell
+                src = _private(w, "_wrapped_cell", "wrapped_cell")
+                if src is MISSING:
+                    unavailable(chk, "CellWrap: the wrapped cell")
+                    continue
+                chk.count("eval_wrap_translations")
                 t = complex(w.pos) - complex(src.pos)
                 if abs(abs(t) - math.sqrt(19) * step) > TOL * r * 10:
                     chk.fail(sig0 + ("wrap_translation_not_a_cluster_period",), case, observed=abs(t),
@@ -1016,7 +1089,7 @@ def run_pp(chk, fn, npts, a, b, only=None):
     vectors = [tuple(only)] if only is not None else itertools.product(range(len(ALPHA)), repeat=2 * npts)
     for vec in vectors:
         case = dict(case0, draws=list(vec))
-        with chk.guard(("pointprocess", fn), case):
+        with guard(chk, ("pointprocess", fn), case):
             seq = [ALPHA[i] for i in vec]
             su = ScriptedUniform(lambda k: seq[(k - 1) % len(seq)])
             with su.installed(restore_state=False):
@@ -1072,15 +1145,15 @@ def histories(kind, depth):
             yield h
 
 
-def apply_event(kind, obj, ev):
+def apply_event(kind, obj, ev, inner=None):
     name, val = ev
     if kind.startswith("CellWrap("):
         if name == "pos":
             obj.pos = val
         elif name == "inner_pos":
-            obj._wrapped_cell.pos = val
+            inner.pos = val
         else:
-            setattr(obj._wrapped_cell, name, val)
+            setattr(inner, name, val)
     else:
         setattr(obj, name, val)
 
@@ -1155,8 +1228,12 @@ def run_history(chk, kind, hist):
     case = {"part": "history", "kind": kind, "start": {"pos": pos0, "radius": r0, "rotation": rot0},
             "events": [[nm, v] for nm, v in hist]}
     fam = family(kind)
-    with chk.guard(("history", fam), case):
-        obj = build_shape(kind, pos0, r0, rot0)
+    with guard(chk, ("history", fam), case):
+        inner = None
+        if kind.startswith("CellWrap("):
+            obj, inner = build_wrap(kind, pos0, r0, rot0)
+        else:
+            obj = build_shape(kind, pos0, r0, rot0)
         centre, r, rot = shape_centre(kind, pos0, r0), r0, rot0
         is_cell = kind in ("Cell", "Cell3Sec", "CellSquare")
         first_users = place_users(kind, obj) if is_cell else []
@@ -1165,7 +1242,7 @@ def run_history(chk, kind, hist):
         chk.states += 1
         last = "constructor"
         for ev in hist:
-            apply_event(kind, obj, ev)
+            apply_event(kind, obj, ev, inner)
             chk.transitions += 1
             chk.traces_validated += 1
             name, val = ev
@@ -1256,7 +1333,7 @@ def _sequence_body(chk, seq):
         case = {"part": "cluster_sequence", "sequence": list(seq), "index": k,
                 "specs": [list(SEQ_SPECS[i]) for i in seq]}
         sig0 = ("cluster_after_other_clusters", ctype)
-        with chk.guard(sig0, case):
+        with guard(chk, sig0, case):
             check_cluster_geometry(chk, cl, n, ctype, r, pos, rot, case, sig0)
     chk.nontriv(("cluster_sequence", tuple(seq)))
     chk.count("eval_cluster_sequences")
@@ -1297,7 +1374,7 @@ def run_aliasing(chk, kind):
     from pyphysim.cell import cell, shapes
     pos, r, rot = 1 + 2j, 2.5, 17
     case = {"part": "aliasing", "kind": kind}
-    with chk.guard(("aliasing", kind), case):
+    with guard(chk, ("aliasing", kind), case):
         chk.count("eval_aliasing_cases")
         if kind == "calc_rotated_pos":
             for arr in (np.array([1 + 2j, -3j, 0.5]), np.arange(10)[::3], np.arange(12.0).reshape(3, 4).T[1]):
@@ -1332,15 +1409,16 @@ def run_aliasing(chk, kind):
             if max(abs(x - y) for x, y in zip(first, want)) > TOL * r:
                 chk.fail(("aliasing", "Cluster.add_border_users", "positions"), case, observed=first, expected=want)
             d1 = cl.calc_dist_all_users_to_each_cell()
-            ref = d1.copy()
-            d1 += 1000.0
-            d2 = cl.calc_dist_all_users_to_each_cell()
+            ref = np.array(d1, dtype=float)
+            wrote = scribble(d1, 1000.0)
+            chk.outcome("returned_array_writable", ("distance_matrix", wrote))
+            d2 = np.asarray(cl.calc_dist_all_users_to_each_cell())
             if not np.array_equal(d2, ref):
                 chk.fail(("aliasing", "calc_dist_all_users_to_each_cell", "returned_array_is_shared"), case,
                          observed=d2, expected=ref)
             v1 = np.array(cl.vertices)
             vv = cl.vertices
-            vv += 7.0
+            chk.outcome("returned_array_writable", ("Cluster.vertices", scribble(vv, 7.0)))
             if not np.array_equal(np.array(cl.vertices), v1):
                 chk.fail(("aliasing", "Cluster.vertices", "returned_array_is_shared"), case,
                          observed=cl.vertices, expected=v1)
@@ -1356,7 +1434,8 @@ def run_aliasing(chk, kind):
             if not hasattr(obj, attempt):
                 continue
             arr = getattr(obj, attempt)
-            arr += (100.0 + 50j)                      # the caller scribbles over what it was handed
+            # the caller scribbles over what it was handed (if it can)
+            chk.outcome("returned_array_writable", (attempt, scribble(arr, 100.0 + 50j)))
             v2 = np.array(obj.vertices, dtype=complex)
             if v2.shape != v1.shape or not np.array_equal(v2, v1):
                 chk.fail(("aliasing", family(kind), attempt, "returned_array_is_shared"), case, observed=v2, expected=v1)
@@ -1381,7 +1460,7 @@ def run_aliasing(chk, kind):
 def run_pp_aliasing(chk):
     from pyphysim.pointprocess import pointprocess as pp
     case = {"part": "aliasing", "kind": "pointprocess"}
-    with chk.guard(("aliasing", "pointprocess"), case):
+    with guard(chk, ("aliasing", "pointprocess"), case):
         chk.count("eval_aliasing_cases")
         outs = []
         for _ in range(2):
@@ -1389,8 +1468,8 @@ def run_pp_aliasing(chk):
             with su.installed(restore_state=False):
                 outs.append((pp.generate_random_points_in_circle(3, 2.0, 0.5),
                              pp.generate_random_points_in_rectangle(3, 4.0, 1.0)))
-        outs[0][0][:] = 0
-        outs[0][1][:] = 0
+        for arr in outs[0]:
+            scribble(arr, 5.0)
         su = scripted_defaults(100)
         with su.installed(restore_state=False):
             third = (pp.generate_random_points_in_circle(3, 2.0, 0.5), pp.generate_random_points_in_rectangle(3, 4.0, 1.0))
@@ -1411,7 +1490,7 @@ def run_dtypes(chk, kind, form):
     conv = DTYPE_FORMS[form]
     case = {"part": "dtypes", "kind": kind, "form": form}
     px, r, rot = 3, 2, 30
-    with chk.guard(("dtypes", kind, form), case):
+    with guard(chk, ("dtypes", kind, form), case):
         chk.count("eval_dtype_cases")
         if kind == "Cluster":
             for n, ctype in ((7, "simple"), (3, "3sec"), (4, "square")):
@@ -1506,7 +1585,7 @@ def run_dtypes(chk, kind, form):
 def reported_state(obj):
     """only for the outcome 'object_changed' / 'object_unchanged' -- never judged"""
     try:
-        return vbfs.digest(obj)
+        return vbfs.digest(vbfs.state_of(obj))
     except Exception:  # noqa
         return None
 
@@ -1602,7 +1681,7 @@ def run_error_path(chk, name, kind, rot):
     pos, r = 1 + 2j, 2.5
     case = {"part": "error_path", "name": name, "kind": kind, "rotation": rot}
     sig0 = ("after_invalid_call", name)
-    with chk.guard(sig0, case):
+    with guard(chk, sig0, case):
         chk.count("eval_invalid_calls")
         su = scripted_defaults()
         is_cluster = name.startswith("cluster") or name in ("wrap_around_unsupported_size", "delete_users_on_empty")
@@ -1700,7 +1779,7 @@ def run_entry_points(chk, what, pos, rot):
     from pyphysim.cell import cell, shapes
     case = {"part": "entry_points", "what": what, "pos": pos, "rotation": rot}
     sig0 = ("entry_points", what)
-    with chk.guard(sig0, case):
+    with guard(chk, sig0, case):
         chk.count("eval_entry_point_cases")
         if what == "rectangle_corner_orders":
             for w, h in ((1.0, 1.0), (2.0, 0.5), (0.25, 3.0)):
@@ -1853,7 +1932,7 @@ def run_live_objects(chk, ia, ib):
     from pyphysim.cell import cell
     case = {"part": "live_objects", "specs": [list(LIVE_SPECS[ia]), list(LIVE_SPECS[ib])]}
     sig0 = ("live_objects",)
-    with chk.guard(sig0, case):
+    with guard(chk, sig0, case):
         chk.count("eval_live_object_pairs")
 
         def make(i, which):
@@ -2021,6 +2100,9 @@ def main(chk: Check):
             run_job(c, job, i, n)
 
     run_shards(chk, worker)
+    if chk.counters.get("oracle_input_unavailable", 0) and not chk.counters.get("eval_wrapped_cells", 0):
+        raise Broken("vacuous: the wrap-around part could not read the wrapped cells of any cluster "
+                     "(no public accessor; private names tried: _wrapped_cells, wrapped_cells)")
     chk.sample({"part": "contains", "kind": "Rectangle4x1", "pos": POS[1], "radius": 1.0, "rotation": 30})
     chk.sample({"part": "random", "kind": "CellSquare", "sector": 0, "pos": 0j, "radius": 1.0, "rotation": 45,
                 "min_dist_ratio": 0.0, "num_users": 2, "choices": [5, 5]})
